@@ -169,6 +169,34 @@ func Lifecycle(rng *wh.Rng, thorough bool) []Scenario {
 		out = append(out, Scenario{Handlers: []HandlerSpec{plain(0)}, Seed: rng.Next(), Conf: i == 0, WaitMs: 8000, Tag: fmt.Sprintf("life/empty-start/cancel-parked/%d", i),
 			Prog: prog("park:kw", "run", "wrun", "wpark", "add:0", "rh", "wst:0", "cancel", "wsd:0", "rel", "wrr", "close:1", "wclose")})
 	}
+	// the application polls IsClosed() from several goroutines while every handler is stopped / the Run context is cancelled: the
+	// router must close itself all the same and Run return nil (child processes: a router that stays open leaves goroutines)
+	rounds := 6
+	if thorough {
+		rounds = 14
+	}
+	for i := 0; i < rounds; i++ {
+		hs, p := addAll(2, plain)
+		p = append(p, "run", "wrun", "wst:0", "wst:1", fmt.Sprintf("poll:%d", 4+4*(i%3)), "nap:2")
+		if i%2 == 0 {
+			p = append(p, "stop:0", "stop:1")
+		} else {
+			p = append(p, "cancel")
+		}
+		p = append(p, "wsd:0", "wsd:1", "wrr", "close:1", "wclose")
+		out = append(out, Scenario{Handlers: hs, Prog: p, Seed: rng.Next(), Isolate: true, WaitMs: 8000, Tag: fmt.Sprintf("life/poll-selfclose/%d", i)})
+	}
+	// Close arrives while Run's RunHandlers is between two handlers that share one Pub/Sub (the second Subscribe is slow): the
+	// start-up finishes first - Running() closes, every handler is started - then the router closes; Run and Close return nil
+	for _, n := range []int{2, 3} {
+		hs, p := addAll(n, func(h int) HandlerSpec { return HandlerSpec{GoChannel: true} })
+		p = append(p, "run", "wev:sub:2", "close:1", "nap:100", "subgo", "wrun")
+		for h := 0; h < n; h++ {
+			p = append(p, fmt.Sprintf("cst:%d", h))
+		}
+		p = append(p, "wclose", "wrr")
+		out = append(out, Scenario{Handlers: hs, Prog: p, SubGateFrom: 2, Seed: rng.Next(), Isolate: true, WaitMs: 8000, Tag: fmt.Sprintf("life/close-during-startup/%d", n)})
+	}
 	// a second Run returns an error; RunHandlers on a router that is not running returns an error
 	out = append(out, Scenario{Handlers: []HandlerSpec{plain(0)}, Seed: rng.Next(), Conf: true, Tag: "life/second-run",
 		Prog: prog("add:0", "run", "wrun", "run2", "emit:0:1", "whe:1", "run2", "close:1", "wclose", "wrr")})
